@@ -12,6 +12,7 @@ import (
 	"path/filepath"
 	"strings"
 	"sync"
+	"syscall"
 	"time"
 
 	"github.com/folbricht/desync"
@@ -26,6 +27,7 @@ type killStore struct {
 	killAt   int // 0 = never
 	victim   *exec.Cmd
 	killed   bool
+	signal   syscall.Signal // 0: SIGKILL and never answer; else: deliver it, wait a moment, then serve the request
 }
 
 func (k *killStore) ServeHTTP(w http.ResponseWriter, req *http.Request) {
@@ -34,6 +36,18 @@ func (k *killStore) ServeHTTP(w http.ResponseWriter, req *http.Request) {
 	n := len(k.requests)
 	if k.killAt > 0 && n >= k.killAt && k.victim != nil && !k.killed {
 		k.killed = true
+		if k.signal != 0 {
+			k.victim.Process.Signal(k.signal)
+			b, ok := k.objs[req.URL.Path]
+			k.mu.Unlock()
+			time.Sleep(60 * time.Millisecond) // the chunk is "in flight" while the cancellation is noticed
+			if ok {
+				w.Write(b)
+			} else {
+				http.NotFound(w, req)
+			}
+			return
+		}
 		k.victim.Process.Kill()
 		k.mu.Unlock()
 		// never answer: the client is dead
@@ -60,6 +74,22 @@ func c08ExtractCase(a vh.Args, r *vh.Result, c *c08Case) error {
 	rng := vh.NewRand(c.Seed)
 	blob := rng.Bytes(c.BlobLen)
 	sizes := randomSizes(rng, len(blob), 400)
+	if c.Repeat {
+		// distinct payloads A..F laid out as A B C D B E A F (+ more random repeats for larger blobs)
+		var pay [][]byte
+		for i := 0; i < 6; i++ {
+			pay = append(pay, rng.Bytes(200+rng.Intn(1200)))
+		}
+		seq := []int{0, 1, 2, 3, 1, 4, 0, 5}
+		for extra := c.BlobLen / 4000; extra > 0; extra-- {
+			seq = append(seq, rng.Intn(6))
+		}
+		blob, sizes = nil, nil
+		for _, i := range seq {
+			blob = append(blob, pay[i]...)
+			sizes = append(sizes, len(pay[i]))
+		}
+	}
 	idx := buildIndex(blob, sizes)
 	idx.Index.FeatureFlags = desync.CaFormatSHA512256
 	dir, err := lsFreshDir(a.Work, "extract")
@@ -91,6 +121,10 @@ func c08ExtractCase(a vh.Args, r *vh.Result, c *c08Case) error {
 	url := "http://" + ln.Addr().String() + "/"
 	out := filepath.Join(dir, "out")
 	inplace := c.Kind == "extract-inplace"
+	rerunN := c.N
+	if c.Repeat {
+		rerunN = 1 // with one worker the self-seed is exactly the prefix already handled
+	}
 	var old []byte
 	preExisting := !inplace && c.Seed%2 == 0
 	if preExisting {
@@ -104,7 +138,11 @@ func c08ExtractCase(a vh.Args, r *vh.Result, c *c08Case) error {
 	}
 	r.Dist(fmt.Sprintf("%s-target:%s", c.Kind, map[bool]string{true: "empty", false: map[bool]string{true: "existing", false: "absent"}[preExisting]}[emptyTarget]))
 	run := func(killAt int) (string, error) {
-		args := []string{"extract", "-s", url, "-n", fmt.Sprint(c.N)}
+		nw := c.N
+		if killAt == 0 {
+			nw = rerunN
+		}
+		args := []string{"extract", "-s", url, "-n", fmt.Sprint(nw)}
 		if inplace {
 			args = append(args, "-k")
 		}
@@ -113,6 +151,10 @@ func c08ExtractCase(a vh.Args, r *vh.Result, c *c08Case) error {
 		cmd.Env = append(os.Environ(), "HOME="+dir)
 		ks.mu.Lock()
 		ks.requests, ks.killAt, ks.victim, ks.killed = nil, killAt, cmd, false
+		ks.signal = 0
+		if c.Kind == "extract-signal" && killAt > 0 {
+			ks.signal = map[string]syscall.Signal{"TERM": syscall.SIGTERM, "INT": syscall.SIGINT}[c.Signal]
+		}
 		ks.mu.Unlock()
 		var stderr bytes.Buffer
 		cmd.Stderr = &stderr
@@ -150,6 +192,21 @@ func c08ExtractCase(a vh.Args, r *vh.Result, c *c08Case) error {
 		return nil
 	}
 	ents, _ := snapshotTree(dir)
+	if c.Kind == "extract-signal" {
+		// a cancelled extract: the destination holds what it held before or the complete new file, and
+		// exit status 0 means complete
+		cur, rerr := os.ReadFile(out)
+		complete := rerr == nil && bytes.Equal(cur, blob)
+		untouched := (preExisting && rerr == nil && bytes.Equal(cur, old)) || (!preExisting && rerr != nil)
+		r.Dist(fmt.Sprintf("extract-signal:%s/complete=%v", strings.SplitN(res, ":", 2)[0], complete))
+		switch {
+		case res == "exit0" && !complete:
+			fail("extract/cancelled-reports-success", fmt.Sprintf("extract got SIG%s while chunk request %d of %d was in flight (n=%d), exited 0, and the destination holds %d of %d bytes matching=%v", c.Signal, c.K, len(idx.Chunks), c.N, len(cur), len(blob), complete))
+		case !complete && !untouched:
+			fail("extract/cancelled-partial-destination", fmt.Sprintf("extract got SIG%s at request %d (%s): the destination is neither what it was before nor the complete file (%d bytes, err=%v)", c.Signal, c.K, res, len(cur), rerr))
+		}
+		return nil
+	}
 	if !inplace {
 		// destination untouched (killed) or complete (not killed)
 		cur, rerr := os.ReadFile(out)
@@ -195,13 +252,25 @@ func c08ExtractCase(a vh.Args, r *vh.Result, c *c08Case) error {
 		}
 	}
 	// ... and which chunks are already right in it?
-	have := map[string]bool{}
+	have := map[string]bool{}      // ids that must not be requested again
+	anywhere := map[string]bool{}  // ids valid at some occurrence
+	distinct := map[string]bool{}
+	seen := map[string]bool{}
 	nvalid := 0
 	for _, ch := range idx.Chunks {
-		if int(ch.Start+ch.Size) <= len(cur) && desync.Digest.Sum(cur[ch.Start:ch.Start+ch.Size]) == ch.ID {
-			have[ch.ID.String()] = true
+		id := ch.ID.String()
+		distinct[id] = true
+		ok := int(ch.Start+ch.Size) <= len(cur) && desync.Digest.Sum(cur[ch.Start:ch.Start+ch.Size]) == ch.ID
+		if ok {
+			anywhere[id] = true
 			nvalid++
+			// with repeated chunks: only an id whose FIRST occurrence is in place is certainly offered by
+			// the self seed of a one-worker re-run when a later occurrence comes up
+			if !c.Repeat || !seen[id] {
+				have[id] = true
+			}
 		}
+		seen[id] = true
 	}
 	r.Dist(fmt.Sprintf("inplace-valid-before-rerun:%s", bucket(nvalid)))
 	res, err = run(0)
@@ -229,6 +298,13 @@ func c08ExtractCase(a vh.Args, r *vh.Result, c *c08Case) error {
 	if len(reqs) > len(idx.Chunks)-nvalid {
 		fail("extract/inplace-refetches", fmt.Sprintf("re-run issued %d requests for %d missing chunks", len(reqs), len(idx.Chunks)-nvalid))
 	}
+	if c.Repeat {
+		// a chunk that is valid somewhere in the file is copied, not fetched (up to the n chunks the dead
+		// run may have written out of order)
+		if allowed := len(distinct) - len(anywhere) + c.N; len(reqs) > allowed {
+			fail("extract/inplace-refetches", fmt.Sprintf("index with repeated chunks: %d of %d distinct chunks were valid somewhere in the file after the kill, the one-worker re-run requested %d chunks (at most %d needed): %v", len(anywhere), len(distinct), len(reqs), allowed, reqs))
+		}
+	}
 	// independent of what the file shows: of the chunks served before the kill at most n were still being
 	// written, so the re-run may ask for at most total - served + n chunks
 	if allowed := len(idx.Chunks) - answered + c.N; killed && len(reqs) > allowed {
@@ -245,6 +321,37 @@ func c08Extract(a vh.Args, o *vh.Oracle, r *vh.Result, rng *vh.Rand) error {
 	n := 14
 	if a.Tier == "thorough" {
 		n = 120
+	}
+	// indexes with repeated chunks, in place, killed at every request of the dead run
+	for k := 1; k <= 7; k++ {
+		c := &c08Case{Kind: "extract-inplace", Repeat: true, BlobLen: 0, N: 1 + k%2, K: k, Seed: (rng.U64()%500000)<<1 | uint64(k%2)}
+		if a.Tier == "thorough" {
+			c.BlobLen = 4000 * rng.Intn(5)
+		}
+		if err := c08ExtractCase(a, r, c); err != nil {
+			return err
+		}
+	}
+	// SIGTERM / SIGINT while the k-th chunk is in flight, for EVERY k of a small index
+	for _, nw := range []int{1, 2} {
+		seed := rng.U64() % 500000
+		total := 0
+		for k := 1; k == 1 || k <= total; k++ {
+			for v := 0; v < 2; v++ {
+				if nw == 2 && v == 1 {
+					continue
+				}
+				c := &c08Case{Kind: "extract-signal", BlobLen: 2500, N: nw, K: k, Signal: []string{"TERM", "INT"}[(k+v)%2], Seed: seed<<1 | uint64(v)}
+				if err := c08ExtractCase(a, r, c); err != nil {
+					return err
+				}
+				if total == 0 {
+					rr := vh.NewRand(c.Seed)
+					rr.Bytes(c.BlobLen)
+					total = len(randomSizes(rr, c.BlobLen, 400))
+				}
+			}
+		}
 	}
 	for i := 0; i < n; i++ {
 		blobLen := []int{3000, 20000, 60000}[rng.Intn(3)]
